@@ -38,6 +38,7 @@ struct Scenario
     bool fine = false; // requests are issued by gated harness threads that also park at every mutex acquisition
     int connectFaults = 0; // the first n connection attempts fail at once (network unreachable)
     std::vector<int> host; // per request: which of two hosts (authorities) it goes to; empty = all to the first
+    int cutAt = 0;     // > 0: responses sent in two pieces are cut after this many bytes (default: in the middle)
     int warm  = 0;     // the first `warm` requests are issued together and completed (default order) before the
                        // exploration starts: that many keep-alive connections are established and idle
     std::string str() const
@@ -45,7 +46,7 @@ struct Scenario
         std::string s = std::string(fine ? "[fine-grained issue] " : "") + (warm ? "[" + std::to_string(warm) + " connections established by earlier requests] " : std::string()) + (connectFaults ? "[first " + std::to_string(connectFaults) + " connect() fail with ENETUNREACH] " : std::string()) + "threads=" + std::to_string(threads) + " maxConn=" + std::to_string(limit) + " requests=[";
         for (int i = 0; i < n; ++i)
             s += std::string(i ? "," : "") + kBehNames[beh[i]] + (timeoutMs[i] ? "/timeout" + std::to_string(timeoutMs[i]) : "") + (host.empty() ? "" : host[i] ? "@hostB" : "@hostA");
-        return s + "] D<=" + std::to_string(D);
+        return s + "]" + (cutAt ? " responses cut after " + std::to_string(cutAt) + " bytes" : std::string()) + " D<=" + std::to_string(D);
     }
 };
 
@@ -256,7 +257,7 @@ struct ScriptedServer
         }
         if (b == B_PIECES || b == B_CHUNKED)
         {
-            size_t cut = rsp.size() / 2 + 3;
+            size_t cut = sc.cutAt > 0 && (size_t)sc.cutAt < rsp.size() ? (size_t)sc.cutAt : rsp.size() / 2 + 3;
             if (c.piecesSent == 0)
             {
                 snd(c.fd, rsp.data(), cut, MSG_NOSIGNAL);
@@ -880,6 +881,23 @@ int main(int argc, char** argv)
                 }
                 gScenarios.push_back(s);
             }
+    // every cut position of a response (round 6): two requests over one keep-alive connection, each answered in two pieces cut
+    // after k bytes, plain and chunked - "responses arriving in arbitrary segmentation"
+    for (int chunked = 0; chunked < 2; ++chunked)
+    {
+        int len = (int)ScriptedServer::response_for(0, chunked).size();
+        for (int k = 1; k < len; ++k)
+        {
+            Scenario s { 1, 1, 2, {}, {}, 0 };
+            s.cutAt = k;
+            for (int i = 0; i < 2; ++i)
+            {
+                s.beh.push_back(chunked ? B_CHUNKED : B_PIECES);
+                s.timeoutMs.push_back(0);
+            }
+            gScenarios.push_back(s);
+        }
+    }
     // mixed time-outs over two connections: which requests carry a time-out and which are never answered, all combinations
     // (a timer used and released on one connection, then used on the other)
     for (int mask = 1; mask < 8; ++mask)
